@@ -13,7 +13,8 @@ import sys
 import shutil
 from random import random
 from pickle import PROTO, STOP
-from collections.abc import KeysView, ValuesView, ItemsView
+from collections.abc import KeysView
+from collections.abc import ValuesView as _ValuesView, ItemsView as _ItemsView
 from importlib import util as imp
 if imp.find_spec('sqlalchemy'):
   sql = True
@@ -47,6 +48,20 @@ from . import _pickle
 __all__ = ['cache','dict_archive','null_archive','dir_archive',\
            'file_archive','sql_archive','sqltable_archive',\
            'hdf_archive','hdfdir_archive']
+
+class ItemsView(_ItemsView):
+    "items view that skips keys removed (by another user) during iteration"
+    def __iter__(self):
+        for key in self._mapping:
+            try: yield (key, self._mapping[key])
+            except KeyError: pass
+
+class ValuesView(_ValuesView):
+    "values view that skips keys removed (by another user) during iteration"
+    def __iter__(self):
+        for key in self._mapping:
+            try: yield self._mapping[key]
+            except KeyError: pass
 
 PREFIX = "K_"  # hash needs to be importable
 TEMP = ".I_"    # indicates 'temporary' file
@@ -373,8 +388,12 @@ class dir_archive(archive):
         """build a dictionary containing the archive contents"""
         # get the names of all directories in the directory
         keys = self._keydict()
-        # get the values
-        return dict((key,self.__getitem__(key)) for key in keys)
+        # get the values (skip keys removed by another user in the meantime)
+        memo = {}
+        for key in keys:
+            try: memo[key] = self.__getitem__(key)
+            except KeyError: pass
+        return memo
     #FIXME: missing __cmp__, __...__
     def __eq__(self, y):
         try:
